@@ -265,7 +265,9 @@ func coldRun(epJSON, planJSON, fixPath, sitesPath, refJSON string) {
 	shared0 := f.sharedDigest()
 	n, ns := len(ep.Tasks), len(st.Sites)
 	out := &coldOut{Plan: &plan}
+	stepLimit = 16*ref.Stats.Yields + 5e6
 	o := runOnceCold(f, &ep, &plan, ns)
+	stepLimit = 6e9
 	out.Stats, out.Results, out.RunCount = o.Stats, o.Results, 1
 	for s, c := range o.SiteHit {
 		if c > 0 {
